@@ -550,7 +550,7 @@ def _strip_spaces(value):
 
 def _by_coordinates_only(candidates):
     """ candidates with their members reduced to coordinates (who is who among twins is forgotten) """
-    return sorted(((kind, extent, tuple(sorted((m[6], m[7]) for m in members))) for kind, extent, members in candidates),
+    return sorted(((kind, extent, tuple(sorted(m[6] for m in members))) for kind, extent, members in candidates),
                   key=repr)
 
 
@@ -614,8 +614,7 @@ def check_unchanged(ctx, which, before, after, facts, case):
     what = sorted({w for c in changes for w in c.get("what", [c["section"]])})
     ctx.violate("parent-changed:" + which,
                 dict(facts, changed_feature_types=types, changed=what,
-                     changed_features_cross_origin=all("location_before" not in c or ", (0, " in c["location_before"]
-                                                       or c["location_before"].startswith("((0, ") for c in changes),
+                     changed_features_cross_origin=all(c.get("spans_origin") is True for c in changes),
                      examples=changes[:2]), case)
     return False
 
@@ -686,12 +685,12 @@ def run_world(ctx, world, workdir):
         except Exception as err:  # pylint: disable=broad-except
             ctx.violate("file-unreadable", dict(facts, **core.crash_facts(err)), case)
             continue
-        ctx.count("op:file-sequence")
-        if str(file_bio.seq) != geo.expected_sequence(str(parent_seq)):
-            ctx.violate("file-sequence", dict(facts, file_length=len(file_bio.seq), region_length=geo.length), case)
         if geo.crosses and geo.length == length:
             facts["window_is_whole_ring_with_seam_off_origin"] = True
             facts["extract_is_empty"] = len(file_bio.seq) == 0 and not file_bio.features
+        ctx.count("op:file-sequence")
+        if str(file_bio.seq) != geo.expected_sequence(str(parent_seq)):
+            ctx.violate("file-sequence", dict(facts, file_length=len(file_bio.seq), region_length=geo.length), case)
         log = Log(ctx, facts, case)
         check_header(ctx, view, file_bio, log)
         pairs = pair_features(ctx, view, file_bio, log)
@@ -761,10 +760,11 @@ def run(ctx):
     logging.disable(logging.ERROR)   # antiSMASH logs refused worlds (overlapping regions); they are counted instead
     workdir = tempfile.mkdtemp(prefix="vf-c12-")
     try:
-        n = ctx.quota(400, 32000)
+        n = ctx.quota(400, 16000)
         for i in ctx.cases(n, every=4):
             rng = ctx.rng("world", i)
-            world = W.gen_world(rng, "large" if (ctx.tier == "thorough" and i % 10 == 0) else "normal")
+            size = "large" if (ctx.tier == "thorough" and i % 10 == 0) else ("plasmid" if i % 16 == 5 else "normal")
+            world = W.gen_world(rng, size)
             run_world(ctx, world, workdir)
     finally:
         shutil.rmtree(workdir, ignore_errors=True)
